@@ -199,7 +199,8 @@ def make(rnd, kind):
     elif kind == 'truncated-second-stream':
         post = ('truncsecond', None)
     elif kind == 'missing-runlen':
-        blk = big_run_block(rnd, 4)
+        # all-zero BWT column of 5k+4 bytes decodes to k runs "0000"+count 0 and a final "0000" with no count
+        blk = big_run_block(rnd, 5 * rnd.choice([0, 0, 1, 2, 7, 200, 3000]) + 4, byte=0) if rnd.random() < 0.7 else big_run_block(rnd, 4)
         blocks[pos] = blk
     elif kind == 'trailing-full-header':
         trailing = b'BZh' + bytes([0x30 + rnd.randint(1, 9)]) + rnd.randbytes(rnd.choice([0, 1, 5, 40]))
